@@ -233,15 +233,15 @@ func init() {
 		Simulated: []string{"goroutine scheduling", "child-VM sync.Pool policy", "host functions and their failures"},
 		Runs: func(tier string) int {
 			if tier == "thorough" {
-				return 120000
+				return 1000000
 			}
-			return 2400
+			return 12000
 		},
 		RaceRuns: func(tier string) int {
 			if tier == "thorough" {
-				return 16000
+				return 120000
 			}
-			return 640
+			return 3200
 		},
 		Run:          c08Run,
 		ShrinkBudget: 800,
